@@ -40,6 +40,16 @@ theorem variance_eq (xs : List ℝ) (h : 2 ≤ xs.length) :
     simp only [IterStatistics.variance, listNext, lit_one, lit_zero, e, hlt, if_true]
     rw [hv]; rfl
 
+/-- `std_dev = sqrt ∘ variance`, every carrier -/
+theorem std_dev_def {α : Type} [Add α] [Sub α] [Mul α] [Div α] [Neg α] [LT α] [LE α] [BEq α]
+    [DecidableLT α] [DecidableLE α] [OfScientific α] [Inhabited α] [RFun α] (xs : List α) :
+    IterStatistics.std_dev xs = RFun.sqrt (IterStatistics.variance xs) := rfl
+
+/-- `population_std_dev = sqrt ∘ population_variance`, every carrier -/
+theorem population_std_dev_def {α : Type} [Add α] [Sub α] [Mul α] [Div α] [Neg α] [LT α] [LE α]
+    [BEq α] [DecidableLT α] [DecidableLE α] [OfScientific α] [Inhabited α] [RFun α] (xs : List α) :
+    IterStatistics.population_std_dev xs = RFun.sqrt (IterStatistics.population_variance xs) := rfl
+
 /-- `std_dev xs = √(Σ (x - x̄)² / (n - 1))` for every data vector with at least two entries -/
 theorem std_dev_eq (xs : List ℝ) (h : 2 ≤ xs.length) :
     IterStatistics.std_dev xs = Spec.Stats.stdDev xs := by
